@@ -311,25 +311,30 @@ def correspond(ctx):
     orders = [n for _, n in curve_orders()] + [2, 3, 4, 5, 255, 256, 257, 258, 65537, (1 << 64) - 1, (1 << 64), (1 << 64) + 1, 1, 0]
     if ctx.quick:
         orders = rng.sample(orders[:17], 4) + orders[17:]
+    # Python's repr of bytes (what "%s" % seed gives for a bytes seed) is modelled: every byte value, both quote rules
+    for b in range(256):
+        for sd in (bytes([b]), bytes([b, 39]), bytes([34, b]), bytes([39, b, 34])):
+            c.add("fmt_seed_bytes %s" % hx(sd), lambda: hx(fmt_seed(sd)), "repr(bytes)")
     for seed in seeds(ctx):
-        fs = fmt_seed(seed)
+        # bytes seeds go to the model raw (token r<hex>: the model formats them), other seeds formatted by the harness
+        fs = ("r" + seed.hex()) if isinstance(seed, bytes) else hx(fmt_seed(seed))
         sizes = [rng.choice([0, 1, 2, 31, 32, 33, 65]) for _ in range(rng.randrange(1, 5))]
 
         def reads():
             g = util.PRNG(seed)
             return " ".join(hx(g(k)) for k in sizes)
         rec, th = with_sha(reads)
-        c.add("prng %s %s %s" % (hx(fs), lst(sizes), rec.token()), th, "prng seed:" + type(seed).__name__)
+        c.add("prng %s %s %s" % (fs, lst(sizes), rec.token()), th, "prng seed:" + type(seed).__name__)
         for n in (orders if isinstance(seed, bytes) and len(seed) < 8 else rng.sample(orders, 3)):
             rec, th = with_sha(lambda: str(util.randrange_from_seed__overshoot_modulo(seed, n)))
-            c.add("overshoot %s %d %s" % (hx(fs), n, rec.token()), th, "overshoot")
+            c.add("overshoot %s %d %s" % (fs, n, rec.token()), th, "overshoot")
             if n >= 2:
                 bits = util.bits_and_bytes(n)[0]
                 c.add("bits_and_bytes %d" % bits, lambda: "%d %d %d" % util.bits_and_bytes(n), "bits_and_bytes")
             else:
                 bits = 1
             rec, th = with_sha(lambda: str(util.randrange_from_seed__trytryagain(seed, n)))
-            c.add("trytryagain %s %d %d %s" % (hx(fs), n, bits, rec.token()), th, "trytryagain")
+            c.add("trytryagain %s %d %d %s" % (fs, n, bits, rec.token()), th, "trytryagain")
     c.run()
 
 
